@@ -1039,11 +1039,11 @@ fn main() {
     }
 
     let threads = 16usize;
-    let n_extract: usize = ctx.pick(4_000, 50_000);
-    let n_validate: usize = ctx.pick(40_000, 400_000);
-    let n_mover: usize = ctx.pick(2_000, 20_000);
-    let n_plan: usize = ctx.pick(20_000, 500_000);
-    let n_am: usize = ctx.pick(4, 32);
+    let n_extract: usize = ctx.pick(12_000, 50_000);
+    let n_validate: usize = ctx.pick(120_000, 400_000);
+    let n_mover: usize = ctx.pick(6_000, 20_000);
+    let n_plan: usize = ctx.pick(80_000, 500_000);
+    let n_am: usize = ctx.pick(8, 32);
     let next = AtomicUsize::new(0);
     let total = n_extract + n_validate + n_mover + n_plan + n_am;
     std::thread::scope(|s| {
